@@ -6,6 +6,7 @@ import OV.Lemmas.C18WF
 import OV.Lemmas.C18Sem
 import OV.Lemmas.C18Names
 import OV.Lemmas.C18Partition
+import OV.Lemmas.C18Scopes
 /-!
 # C18 — GraphBuilder / nn.Module graphs compute the trace; parameters named like PyTorch
 
@@ -299,6 +300,30 @@ example : BuiltTop topDownNet := by
         (lin_built _ _) rfl) ?_ Built.emptySeq rfl) ?_ (lin_built _ _) rfl
   all_goals (apply of_all; decide)
 
+/-! ### histories: a forward that raises, then the module is called again -/
+
+/-- **An exception inside `forward` does not disturb the names** (history of two calls on one builder).  Whatever
+part of the tree had been entered when the exception was raised — the first `k` parameter realisations of the full
+sequence, any `k`; `Module.__call__` pops its scope in a `finally`, a sub-builder's scope is a copy — calling the root
+again realises exactly what one undisturbed call realises, in the same order: parameters realised by the aborted
+call keep their (correct) names, `_realize` is idempotent per object, the others are realised now. -/
+theorem realize_after_abort (root : Mod) (k : Nat) :
+    dedupPid ((callRoot root).take k ++ callRoot root) [] = realize root :=
+  dedupPid_take_append (callRoot root) k []
+
+/-- …hence the property holds for such a history too: initializer names = `root.name + "." + state_dict key`. -/
+theorem initializer_names_after_abort_partial (root : Mod) (k : Nat) (hb : BuiltTop root)
+    (hd : (pids root).Nodup) :
+    dedupPid ((callRoot root).take k ++ callRoot root) []
+      = (stateDict "" root).map (fun x => (rootKey root x.1, x.2)) := by
+  rw [realize_after_abort]
+  exact realize_eq root (builtTop_rootNamed hb) hd
+
+example : (callRoot topDownNet).take 2 = [("model.stem.weight", 0), ("model.stages.0.0.weight", 1)] := by decide
+example : dedupPid ((callRoot topDownNet).take 2 ++ callRoot topDownNet) [] =
+    [("model.stem.weight", 0), ("model.stages.0.0.weight", 1), ("model.stages.0.1.weight", 2),
+     ("model.stages.1.0.weight", 3)] := by decide
+
 /-! ## Part A — names generated by `GraphBuilder` -/
 
 /-- **Names are unique** (after commits e9794aa and e7b46e0 — no hypothesis on the trace any more).  In
@@ -414,6 +439,232 @@ theorem names_render_prefix_refuted :
 example : (build [fFour, fOne] d20fTrace).valueNames =
     ["x", "v_Relu_0", "v_f_0_1", "v_f_1_1", "v_f_2_1", "v_f_3_1", "v_Add_2", "v_f_1_3"] := by decide
 example : (build [fFour, fOne] d20fTrace).valueNames.Nodup := by decide
+
+/-! ### exceptions: what a refused or aborted call leaves on the scope stacks -/
+
+/-- the module-scope stack (`_scope_stack`) of the current builder, then of every enclosing builder. -/
+def scopes (st : St) : List (List String) := (st.cur :: st.stack).map (·.scope)
+
+/-- items whose *purpose* is to change a scope stack or the builder in charge. -/
+def scopeItem : Item → Bool
+  | .push _ => true
+  | .pop => true
+  | .beginSub _ _ => true
+  | .endSub _ _ => true
+  | .abortSub => true
+  | _ => false
+
+/-- a `call_inline` with a `_prefix` that gets more operands than the function has parameters (with `_outputs` of
+the right length): `_inliner.instantiate` raises after `push_module(_prefix)`. -/
+def raisingPrefixedInline (fns : List Fn) : Item → Bool
+  | .inline fi a o p _ =>
+    match fns[fi]? with
+    | some f => p != "" && decide (a.length > f.formals.length) && !outsMismatch o f
+    | none => false
+  | _ => false
+
+/-- **Scope stacks survive every call — accepted or refused** (full since commit 15c1bb3).  For every state, every
+operator call, function call, inlining, input and output declaration — whether the builder accepts it or raises
+(unknown function, wrong number of `_outputs`, too many operands, `None` output) — the scope stack of the current
+builder and of every enclosing builder is afterwards exactly what it was: a `_prefix` pushed by `call_inline` is
+popped again on **every** path (the pushed section runs under `try/finally`), promoted literals and cloned nodes
+never touch it.  (Before 15c1bb3 one call had to be excluded: `scopes_kept_prefix_refuted`.) -/
+theorem scopes_kept (fns : List Fn) (st : St) (it : Item) (h1 : scopeItem it = false) :
+    scopes (step true fns st it) = scopes st := by
+  have key : ∀ st' : St, SS st st' → scopes st' = scopes st := by
+    intro st' h
+    simp only [scopes, List.map_cons, h.1, h.2]
+  apply key
+  cases it with
+  | input n => exact ⟨rfl, rfl⟩
+  | op t a o nn g as => exact ss_doOp st t a o nn g as
+  | push n => simp [scopeItem] at h1
+  | pop => simp [scopeItem] at h1
+  | call f a o as => exact ss_doCall fns st f a o as
+  | inline fi a o p as => exact ss_doInline prefixLeaks fns st fi a o p as (Or.inl rfl)
+  | beginSub g i => simp [scopeItem] at h1
+  | endSub r d => simp [scopeItem] at h1
+  | abortSub => simp [scopeItem] at h1
+  | output hd n =>
+    simp only [step, doOutput]
+    split
+    · exact ss_fail st _
+    · split
+      · split
+        · exact ⟨rfl, rfl⟩
+        · exact ⟨rfl, rfl⟩
+      · exact ⟨rfl, rfl⟩
+
+/-- the same for `call_inline` alone, stated on the operation: accepted, or refused at any of its three checks. -/
+theorem scopes_kept_inline (fns : List Fn) (st : St) (fi : Nat) (a : List Arg) (o : Option (List String))
+    (p : String) (as : List (String × AVal)) :
+    scopes (doInline true fns st fi a o p as) = scopes st := by
+  have h := ss_doInline prefixLeaks fns st fi a o p as (Or.inl rfl)
+  simp only [doInline, scopes, List.map_cons, h.1, h.2]
+
+/-- **Before commit 15c1bb3** (`doInlineWith true`: `pop_module()` on the success path only) the scopes were kept by
+every inlining *except* the one that raises inside `_inliner.instantiate` after the prefix was pushed… -/
+theorem scopes_kept_inline_prefix_partial (fns : List Fn) (st : St) (fi : Nat) (a : List Arg)
+    (o : Option (List String)) (p : String) (as : List (String × AVal))
+    (h2 : raisingPrefixedInline fns (.inline fi a o p as) = false) :
+    scopes (doInlineWith true true fns st fi a o p as) = scopes st := by
+  have h : SS st (doInlineWith true true fns st fi a o p as) := by
+    refine ss_doInline true fns st fi a o p as ?_
+    by_cases hp : p = ""
+    · exact Or.inr (Or.inl hp)
+    · refine Or.inr (Or.inr ?_)
+      intro f hf
+      simp only [raisingPrefixedInline, hf] at h2
+      by_cases hl : a.length > f.formals.length
+      · right
+        simpa [hp, hl] using h2
+      · exact Or.inl hl
+  simp only [scopes, List.map_cons, h.1, h.2]
+
+/-- **Leaving a subgraph — normally, by a refusal of `build_graph`, or by an exception in the trace function —
+re-installs the enclosing builder with its scope stack untouched**: whatever was pushed inside went to the
+sub-builder's own copy. -/
+theorem scopes_after_subgraph (fns : List Fn) (st : St) (it : Item)
+    (hit : (∃ r d, it = .endSub r d) ∨ it = .abortSub) (hs : st.stack ≠ []) :
+    scopes (step true fns st it) = (scopes st).tail := by
+  cases hst : st.stack with
+  | nil => exact absurd hst hs
+  | cons parent rest =>
+    have hab : scopes (abandon st) = (scopes st).tail := by
+      simp [scopes, abandon, hst]
+    have hf : ∀ (s : St) (e : String), scopes (fail s e) = scopes s := by
+      intro s e; unfold fail; split <;> rfl
+    rcases hit with ⟨r, d, rfl⟩ | rfl
+    · simp only [step, doEndSub, hst]
+      split
+      · rw [hf, hab]
+      · simp [scopes, hst]
+    · simp only [step, doAbortSub, hst]
+      exact hab
+
+/-- and opening one hands the sub-builder a *copy* of the current scope stack. -/
+theorem scopes_begin_subgraph (fns : List Fn) (st : St) (g : String) (i : List String) :
+    scopes (step true fns st (.beginSub g i)) = st.cur.scope :: scopes st := by
+  simp only [step, doBeginSub, newValues, scopes, List.map_cons]
+
+/-- **Enclosing builders are frozen while a subgraph is open.**  Whatever happens in the builder in charge — any
+item of any trace function, accepted or refused — the frames of the enclosing
+builders (nodes, inputs, outputs, scope stacks) are not touched: the list of enclosing frames stays as it is, or grows
+by the current frame (a nested `subgraph` opens), or loses its head, which becomes the builder in charge again exactly
+as it was left (a subgraph is finished, refused by `build_graph`, or abandoned by an exception). -/
+theorem enclosing_frames_frozen (fns : List Fn) (st : St) (it : Item) :
+    (step true fns st it).stack = st.stack ∨
+    (step true fns st it).stack = st.cur :: st.stack ∨
+    (∃ p rest, st.stack = p :: rest ∧ (step true fns st it).stack = rest ∧ (step true fns st it).cur = p) := by
+  have hf : ∀ (s : St) (e : String), (fail s e).stack = s.stack ∧ (fail s e).cur = s.cur := by
+    intro s e; unfold fail; split <;> exact ⟨rfl, rfl⟩
+  cases it with
+  | input n => exact Or.inl rfl
+  | op t a o nn g as => exact Or.inl (ss_doOp st t a o nn g as).2
+  | push n => exact Or.inl rfl
+  | pop => exact Or.inl (stack_popScope st)
+  | call f a o as => exact Or.inl (ss_doCall fns st f a o as).2
+  | inline fi a o p as => exact Or.inl (stack_doInline prefixLeaks fns st fi a o p as)
+  | beginSub g i =>
+    refine Or.inr (Or.inl ?_)
+    simp only [step, doBeginSub]
+  | endSub r d =>
+    simp only [step, doEndSub]
+    cases hst : st.stack with
+    | nil => exact Or.inl ((hf st _).1.trans hst)
+    | cons parent rest =>
+      refine Or.inr (Or.inr ⟨parent, rest, rfl, ?_⟩)
+      simp only []
+      split
+      · rw [(hf _ _).1, (hf _ _).2]
+        simp [abandon, hst]
+      · exact ⟨rfl, rfl⟩
+  | abortSub =>
+    simp only [step, doAbortSub]
+    cases hst : st.stack with
+    | nil => exact Or.inl ((hf st _).1.trans hst)
+    | cons parent rest =>
+      refine Or.inr (Or.inr ⟨parent, rest, rfl, ?_⟩)
+      simp [abandon, hst]
+  | output hd n =>
+    refine Or.inl ?_
+    simp only [step, doOutput]
+    split
+    · exact (hf st _).1
+    · split
+      · split <;> rfl
+      · rfl
+
+/-- **A subgraph, whatever happens inside, gives the enclosing builder back exactly as it was.**  Open a subgraph on any
+state, run *any* body that stays inside it (`relDepth 0 body = some 0`: operator calls, calls and inlinings — accepted,
+refused —, module scopes pushed and popped or left open, nested subgraphs that are finished, refused or
+abandoned), then leave it — by returning (`endSub`, accepted or refused by `build_graph`) or by an exception
+(`abortSub`): the builder in charge is the enclosing one with the very same frame — nodes, inputs, outputs **and scope
+stack** — and the same enclosing builders above it.  Nothing traced in the body lands in, or renames the scopes of, the
+parent. -/
+theorem subgraph_restores_parent (fns : List Fn) (st : St) (g : String) (i : List String) (body : List Item)
+    (close : Item) (hb : relDepth 0 body = some 0) (hc : close = .abortSub ∨ ∃ r d, close = .endSub r d) :
+    ((body ++ [close]).foldl (step true fns) (step true fns st (.beginSub g i))).cur = st.cur ∧
+    ((body ++ [close]).foldl (step true fns) (step true fns st (.beginSub g i))).stack = st.stack := by
+  obtain ⟨pre, hl, hs⟩ := body_keeps_base fns body (step true fns st (.beginSub g i)) 0 [] (st.cur :: st.stack) 0
+    (by rw [stack_begin]; rfl) rfl hb
+  have hpre : pre = [] := List.length_eq_zero_iff.mp hl
+  subst hpre
+  rw [List.foldl_append, List.foldl_cons, List.foldl_nil]
+  have := stack_leave fns _ close st.cur st.stack hc (by simpa using hs)
+  exact ⟨this.2, this.1⟩
+
+/-- non-vacuity: the body of `abortTrace` (a push left open, a node) and a body with a refused prefixed inlining and a
+    nested abandoned subgraph. -/
+example : relDepth 0 [.push "inner", .op "Neg" [.ref 1] (.auto 1) none [] []] = some 0 := by decide
+example : relDepth 0 [.inline 0 [.ref 0, .ref 0] none "blk" [], .beginSub "n" [], .push "q", .abortSub,
+    .op "Relu" [.ref 0] (.auto 1) none [] []] = some 0 := by decide
+example : relDepth 0 [.op "Relu" [.ref 0] (.auto 1) none [] [], .endSub [1] [""]] = none := by decide
+
+/-- D20j witness (regression case): `x = input; call_inline(ident, x, x, _prefix="blk")` raises "Too many inputs",
+the program catches it and goes on. -/
+def d20jTrace : List Item :=
+  [.input "x", .inline 0 [.ref 0, .ref 0] none "blk" [], .op "Relu" [.ref 0] (.auto 1) none [] []]
+
+/-- …and **on that call the statement was false before the fix** (finding D20j, fixed by 15c1bb3): the prefix stayed
+on the scope stack, so every later automatic name carried it (`v_blk.Relu_0`) and so did every initializer realised
+by a module called afterwards (`blk.net.fc.weight` instead of `net.fc.weight`). -/
+theorem scopes_kept_prefix_refuted :
+    ¬ (∀ (fns : List Fn) (st : St) (fi : Nat) (a : List Arg) (o : Option (List String)) (p : String)
+        (as : List (String × AVal)), scopes (doInlineWith true true fns st fi a o p as) = scopes st) := by
+  intro h
+  have := h [fIdent] (build [fIdent] [.input "x"]) 0 [.ref 0, .ref 0] none "blk" []
+  revert this
+  decide
+
+example : raisingPrefixedInline [fIdent] (.inline 0 [.ref 0, .ref 0] none "blk" []) = true := by decide
+example : scopes (doInlineWith true true [fIdent] (build [fIdent] [.input "x"]) 0 [.ref 0, .ref 0] none "blk" [])
+    = [["blk"]] := by decide
+/-- non-vacuity of `scopes_kept_inline_prefix_partial`: the same refused call without a prefix. -/
+example : raisingPrefixedInline [fIdent] (.inline 0 [.ref 0, .ref 0] none "" []) = false := by decide
+/-- on the current code the witness is refused and leaves nothing behind. -/
+example : (build [fIdent] d20jTrace).err = some "too-many-inputs" := by decide
+example : scopes (build [fIdent] d20jTrace) = [[]] := by decide
+example : (build [fIdent] d20jTrace).valueNames = ["x", "v_Relu_0"] := by decide
+example : scopes (build [fIdent] [.input "x", .push "m", .inline 0 [.ref 0, .ref 0] none "blk" []]) = [["m"]] := by
+  decide
+/-- non-vacuity of `scopes_kept` on refusals: the same call without a prefix, and with a wrong `_outputs`. -/
+example : scopes (build [fIdent] [.input "x", .push "m", .inline 0 [.ref 0, .ref 0] none "" []]) = [["m"]] := by decide
+example : scopes (build [fIdent] [.input "x", .push "m", .inline 0 [.ref 0] (some ["a", "b"]) "blk" []]) = [["m"]] := by
+  decide
+example : (build [fIdent] [.input "x", .push "m", .inline 0 [.ref 0] (some ["a", "b"]) "blk" []]).err
+    = some "outputs-mismatch" := by decide
+/-- an accepted prefixed inlining pops its prefix. -/
+example : scopes (build [fAddMul] [.input "x", .push "m", .inline 0 [.ref 0, .ref 0] none "blk" []]) = [["m"]] := by
+  decide
+/-- an exception inside a subgraph body in which a module scope was pushed: back in the parent, scope `["m"]`; the
+    dropped graph's node still counts (`v_m.Relu_1`, not `_0`). -/
+def abortTrace : List Item :=
+  [.input "x", .push "m", .beginSub "body" ["i"], .push "inner",
+   .op "Neg" [.ref 1] (.auto 1) none [] [], .abortSub, .op "Relu" [.ref 0] (.auto 1) none [] []]
+example : scopes (build [] abortTrace) = [["m"]] := by decide
+example : (build [] abortTrace).valueNames = ["x", "i", "v_m.inner.Neg_0", "v_m.Relu_1"] := by decide
+example : (build [] abortTrace).err = none := by decide
 
 /-! ## Part C — the built graph is well-formed and computes the trace; inlining = calling -/
 
